@@ -505,7 +505,21 @@ def rotate(ck, l, judge):
         ms = cn.mods.get(x["id"], [])
         pushes = [(bb, ii, m) for k, bb, ii, m in ms if m.get("pn", "").split("::")[-1] in ("push_back", "emplace_back")]
         other = [m for k, bb, ii, m in ms if m.get("pn", "").split("::")[-1] not in ("push_back", "emplace_back", "reserve")]
-        ok_push = len(pushes) == 1 and not other and not atoms_at(f, pushes[0][0])
+        ok_push = len(pushes) == 1 and not other
+        if ok_push:
+            # the collection happens only when the requested vertex was found (F56): the push is guarded by a flag that is
+            # set under the equality fact, or lies itself under that fact; a miss returns the empty list
+            pfacts = [(s_, p_) for s_, p_, c_ in cn.facts(pushes[0][0]) if not re.fullmatch(r"\(it\d+\(0\) < .*\)", s_)]
+            found_ok = False
+            for s_, p_ in pfacts:
+                if p_ is True and re.fullmatch(r"v\d+", s_):
+                    vid = [v_ for v_, n_ in cn._name.items() if n_ == s_]
+                    sets_ = [(bb, m) for k_, bb, ii, m in cn.mods.get(vid[0], [])] if vid else []
+                    if sets_ and all(any(p2 is True and "P1" in s2 and "*it" in s2 and "==" in s2 for s2, p2, c2 in cn.facts(bb)) for bb, m in sets_):
+                        found_ok = True
+                if p_ is True and "P1" in s_ and "*it" in s_ and "==" in s_:
+                    found_ok = True
+            judge(found_ok, l, n, "get_halfface_vertices(hf, v) collects the vertices only under the fact that v was found on hf - a miss returns the empty list (guard facts at the push: %s)" % (pfacts[:2] or "none"), "ghv2:miss")
         it = None
         if ok_push:
             a = unwrap(f.resolve(pushes[0][2]["a"][0]))
